@@ -2,6 +2,7 @@
 LEVELS = {
     "C04": "proof",
     "C02": "proof",
+    "C06": "proof",
 }
 EXPLAIN = {}
 TRUSTED = [
